@@ -214,16 +214,28 @@ func H_close_accounting() {
 		}()
 	}
 	var got []int
-	if x, ok := c.Receive(); ok {
-		got = append(got, intOf(x))
+	// the consumer takes one value before closing, or closes at once (a sender can then be blocked on
+	// a full buffer at the moment of the close)
+	if symx.Choose("receive_first", 2) == 1 {
+		if x, ok := c.Receive(); ok {
+			got = append(got, intOf(x))
+		}
 	}
 	c.Close()
-	wg.Wait()
+	// the consumer drains WHILE the senders may still be returning from their calls
+	drained := false
 	for k := 0; k < 3; k++ {
 		x, ok := c.Receive()
 		if !ok {
-			break
+			drained = true
+			continue
 		}
+		symx.Assert(!drained, "once a receive has reported the channel closed and drained, no later receive yields a value")
+		got = append(got, intOf(x))
+	}
+	wg.Wait()
+	if x, ok := c.Receive(); ok {
+		symx.Assert(false, "a value appears in the channel after it was closed and drained")
 		got = append(got, intOf(x))
 	}
 	for t := 0; t < 2; t++ {
